@@ -576,4 +576,54 @@ def cases():
     f = base(mods, [{"name": "app", "sources": ["main.c"], "depends": ["uart", "spi"]}])
     f["laze-project.yml"][0]["defaults"] = {"module": {"sources": ["log.c"]}}
     out.append((f, {}))
+    # 74: --disable of names that contain `:` (namespaced modules, provided markers): the whole string is the name, for
+    #     every builder
+    mods = [{"name": "net::ipv6", "sources": ["ipv6.c"]}, {"name": "net::ipv4", "sources": ["ipv4.c"]},
+            {"name": "flasher", "sources": ["fl.c"], "provides": ["::task::flash"]}, {"name": "b0:only", "sources": ["bo.c"]}]
+    apps = [{"name": "app", "sources": ["main.c"], "selects": ["net::ipv4", "?net::ipv6", "?::task::flash", "?b0:only"]}]
+    out.append((base(mods, apps), {"disable": ["net::ipv6", "::task::flash", "b0:only"]}))
+    out.append((base(mods, apps), {"disable": ["b1:net::ipv4"]}))
+    # 75: two rules of one NAME for different extensions on a builder's chain (rules are looked up by extension; the
+    #     name says nothing): each source is compiled by the rule for ITS extension
+    ctx = [{"name": "default", "rules": RULES + [{"name": "ASM", "in": "S", "out": "o", "cmd": "cc -x assembler-with-cpp -c ${in} -o ${out}"}],
+            "env": {"bindir": "${build-dir}/${builder}/${app}"}}]
+    f = {"laze-project.yml": [{"contexts": ctx, "builders": [{"name": "b0", "rules": [{"name": "ASM", "in": "s", "out": "o", "cmd": "as-plain ${in} -o ${out}"}]}, {"name": "b1"}],
+                               "modules": [{"name": "startup", "sources": ["vectors.s", "crt0.S"]}],
+                               "apps": [{"name": "app", "sources": ["main.c", "boot.S", "tail.s"], "depends": ["startup"], "blocklist": ["b1"]},
+                                        {"name": "app1", "sources": ["main.c", "only.S"]}]}]}
+    out.append((f, {}))
+    # 76: a project that has variables called like directories laze chooses itself (objdir, build-dir is reserved):
+    #     they are the project's own business, laze's objects stay under <build-dir>/objects
+    f = base([{"name": "lib", "sources": ["lib.c"], "env": {"global": {"objdir": "lst/from-module"}}}], [{"name": "app", "sources": ["main.c"], "depends": ["lib"]}])
+    f["laze-project.yml"][0]["contexts"][0]["env"].update({"objdir": "lst/${builder}", "objects": "elsewhere", "outdir": "/abs/out"})
+    out.append((f, {})); out.append((f, {"define": ["objdir=/tmp/cli-objdir"]}))
+    # 77: a source directory that expands to a path with TWO leading slashes (an empty prefix variable before an absolute
+    #     one): still made relative as a whole before it is pushed onto the (private) object directory
+    f = base([{"name": "sdkmod", "srcdir": "${SYSROOT}/${SDK_DIR}/src", "sources": ["startup.S", "plain.c"]}],
+             [{"name": "app", "sources": ["main.c"], "depends": ["sdkmod"]}],
+             builders=[{"name": "b0", "env": {"ASFLAGS": "-b0"}}, {"name": "b1", "env": {"ASFLAGS": "-b1"}}])
+    f["laze-project.yml"][0]["contexts"][0]["env"].update({"SYSROOT": "", "SDK_DIR": "/opt/sdk"})
+    f["laze-project.yml"][0]["contexts"][0]["rules"] = RULES + [{"name": "AS", "in": "S", "out": "o", "cmd": "as ${ASFLAGS} ${in} -o ${out}", "shareable": False}]
+    out.append((f, {}))
+    # 78: two variables rendered from: two other variables on one builder: each takes the elements of ITS source
+    ctx = [{"name": "default", "rules": [{"name": "CC", "in": "c", "out": "o", "cmd": "cc ${INC} ${DEFS} -c ${in} -o ${out}"}, RULES[1]],
+            "env": {"bindir": "${build-dir}/${builder}/${app}", "includes": ["inc/a", "inc/b"], "defines": ["FOO", "BAR"]},
+            "var_options": {"INC": {"from": "includes", "prefix": "-I", "start": "<", "end": ">"}, "DEFS": {"from": "defines", "prefix": "-D", "joiner": ",", "start": "[", "end": "]"}}}]
+    f = {"laze-project.yml": [{"contexts": ctx, "builders": [{"name": "b0"}, {"name": "b1", "env": {"defines": ["ONLY_B1"]}}],
+                               "modules": [{"name": "m", "sources": ["m.c"], "env": {"local": {"includes": ["inc/m"]}}}],
+                               "apps": [{"name": "app", "sources": ["main.c"], "depends": ["m"]}]}]}
+    out.append((f, {}))
+    # 79: var_options on a context that has no env: (nor has any context above it): builders below it inherit the options
+    ctx = [{"name": "default", "rules": [{"name": "CC", "in": "c", "out": "o", "cmd": "cc ${includes} -c ${in} -o ${out}"}, RULES[1]]},
+           {"name": "family", "parent": "default", "var_options": {"includes": {"prefix": "-I", "joiner": ","}}},
+           {"name": "other", "parent": "default", "env": {"includes": ["inc/o"]}, "var_options": {"includes": {"prefix": "-i"}}}]
+    blds = [{"name": "b0", "parent": "family", "env": {"bindir": "out/${builder}/${app}", "includes": ["inc/a", "inc/b"]}},
+            {"name": "b1", "parent": "other", "env": {"bindir": "out/${builder}/${app}"}},
+            {"name": "b2", "parent": "b0"}]
+    f = {"laze-project.yml": [{"contexts": ctx, "builders": blds, "apps": [{"name": "app", "sources": ["main.c"]}]}]}
+    out.append((f, {}))
+    # 80: a downloaded module is a build dependency whatever it says itself (`is_build_dep: false` is accepted and has no effect)
+    mods = [{"name": "minilib", "download": dict(git), "sources": ["mini.c"], "is_build_dep": False},
+            {"name": "user", "sources": ["user.c"], "uses": ["minilib"]}]
+    out.append((dlbase(mods, [{"name": "app", "sources": ["main.c"], "depends": ["user", "minilib"]}]), {}))
     return out
